@@ -697,6 +697,18 @@ def query_rules(run, model, rule='HSM-QUERY'):
         run.inst(rule + '.effects', f, '%s writes nothing but the cursor' % nm, not bad,
                  '' if not bad else '%s modifies %s: a query changes the chart' % (nm, sorted(set(bad))), obligation=True)
         heads = [h for h in g.loop_heads() if h.kind == 'test']
+        fheads = [h for h in g.loop_heads() if h.kind == 'for']
+        if not heads and len(fheads) == 1 and any(n_ in g.loop_body(fheads[0]) for n_, _c, _t, _s in classify_sites(f, user_params=[])):
+            # the outward walk is a counted loop: besides a match and top's IGNORED it has a third way out - the iterable running dry
+            it_ = fheads[0].stmt.iter
+            endless = isinstance(it_, ast.Call) and norm(it_.func).split('.')[-1] in ('count', 'repeat', 'cycle') and len(it_.args) <= 1
+            if endless:
+                raise AnalysisError('%s: the walk is a for loop over an endless iterator: the query rules do not apply to this shape' % nm)
+            run.inst(rule + '.walk', f, 'the walk ends when top answers IGNORED (or on a match)', False,
+                     'the outward walk of %s is `for ... in %s`: it also ends when that iterable is exhausted, before top was reached - for a current state nested deeper than the '
+                     'iterable is long the enclosing states beyond it are never compared with the argument (is_in answers False for a state the chart is in, child_state fails for '
+                     'a real ancestor); the processor itself puts no bound on nesting depth' % (nm, norm(it_)), node=fheads[0].stmt.iter, obligation=True)
+            continue
         if len(heads) != 1:
             raise AnalysisError('%s: expected one loop' % nm)
         h = heads[0]
